@@ -102,10 +102,10 @@ let output ord cp o ps want =
     if has "col" then begin
       match o.o_depth with
       | Some n ->
-        let gs = get (collapsed ord n o ps) in
+        let gs = get (collapsed_rows ord n o ps) in
         List.iteri (fun k g ->
             List.iter (fun (a, v) -> add (Printf.sprintf "col %d %s|%s" k (name_of a) (show_value v)))
-              (List.sort compare g)) gs
+              g) gs
       | None -> ()
     end
   with Model_err e -> add ("ERR " ^ e));
